@@ -40,10 +40,12 @@ func (n NativeAppendFn) Call(i *Interpreter, arguments []interface{}) (interface
 	if !ok {
 		return nil, fmt.Errorf("append function only works on arrays")
 	}
-	// Append all other arguments to the array
-	array = append(array, arguments[1:]...)
+	// Build a new array: the argument and arrays returned earlier stay as they are
+	result := make([]interface{}, 0, len(array)+len(arguments)-1)
+	result = append(result, array...)
+	result = append(result, arguments[1:]...)
 
-	return array, nil
+	return result, nil
 }
 
 func (n NativeAppendFn) Arity() int {
@@ -78,10 +80,12 @@ func (n NativeRemoveFn) Call(i *Interpreter, arguments []interface{}) (interface
 		return nil, fmt.Errorf("array index out of bounds")
 	}
 
-	// Remove the element at the specified index
-	array = append(array[:index], array[index+1:]...)
+	// Build a new array without the element at the specified index
+	result := make([]interface{}, 0, len(array)-1)
+	result = append(result, array[:index]...)
+	result = append(result, array[index+1:]...)
 
-	return array, nil
+	return result, nil
 }
 
 func (n NativeRemoveFn) Arity() int {
